@@ -117,6 +117,15 @@ def run_case(ctx, i, rng):
                         ctx.count("library_names_with_punctuation")
                 except ValueError:
                     pass
+            if rng.random() < 0.5:
+                # a dozen or more siblings whose names sanitise to one identifier (the writer's conflict counter gains a digit)
+                d_ = rng.choice([d_ for l in n.libraries for d_ in l.definitions])
+                for ch in rng.sample("-/$ .+=!#@~%^&|:;,<>", rng.randint(12, 15)):
+                    try:
+                        d_.create_cable("fam%sx" % ch, wires=1)
+                        ctx.count("siblings_sanitising_to_one_identifier")
+                    except ValueError:
+                        pass
         if i % 6 == 4:
             # very long names (around and beyond the 255-character identifier limit): the writer shortens the identifier,
             # the name itself must come back unchanged
